@@ -112,7 +112,7 @@ fn main() {
         eprintln!("INCONCLUSIVE: watchdog: run did not finish within {} s", limit);
         std::process::exit(2);
     });
-    let rr = match props::run(&ctx) {
+    let mut rr = match props::run(&ctx) {
         Some(r) => r,
         None => {
             eprintln!("INCONCLUSIVE: unknown property {}", prop);
@@ -127,11 +127,22 @@ fn main() {
         }
         std::process::exit(2);
     }
-    if let Err(e) = report::write_evidence(&ctx, &rr) {
-        eprintln!("INCONCLUSIVE: cannot write evidence: {}", e);
-        std::process::exit(2);
+    // VERIF_SECOND_PASS: the same check run by the binary of another build profile; its verdict counts, its evidence
+    // is that of the main pass
+    let second_pass = std::env::var("VERIF_SECOND_PASS").is_ok();
+    if let Ok(v) = std::env::var("VERIF_REL_PASS") {
+        rr.stats.notes.push(format!(
+            "the same check (quick scale, same seed) was first run by the binary of build profile verifrel (no debug assertions, no overflow checks): {}",
+            v
+        ));
     }
-    for k in ctx.known.iter().filter(|k| k.property == prop) {
+    if !second_pass {
+        if let Err(e) = report::write_evidence(&ctx, &rr) {
+            eprintln!("INCONCLUSIVE: cannot write evidence: {}", e);
+            std::process::exit(2);
+        }
+    }
+    for k in ctx.known.iter().filter(|k| k.property == prop && !second_pass) {
         let hits = rr.stats.known_hits.get(&k.signature).copied().unwrap_or(0);
         println!(
             "KNOWN-FINDING: property={} signature={} {} (hit {} times in this run)",
